@@ -11,6 +11,8 @@ is classified:
   DataParseError     -> fine (the library's parse-error family)
   ValueError         -> fine only for the messages _parse_and_create_from_stream documents for a source without
                         (matching) data
+  returns, but a complete Newick statement of the text (no quotes/comments anywhere) has unbalanced parentheses
+                     -> violation  C20:newick:unbalanced_accepted  (bad data must be reported)
   HangDetected       -> violation  C20:<schema>:hang@<innermost reader function>
   anything else from
   inside dendropy    -> violation  C20:<schema>:<ExceptionType>@<innermost dendropy function>
@@ -354,13 +356,42 @@ def run_route(ctx, route, text, schema, kwargs, matrix_type, dims, valid=False):
     return "returns", res
 
 
+def unbalanced_newick_statement(text):
+    """The first complete (';'-terminated) Newick statement whose parentheses do not balance, else None.
+
+    Only decided for texts without quote and comment characters, where '(' ')' ';' can be nothing but structure; a
+    trailing piece without ';' is not a statement and is ignored."""
+    if "'" in text or "[" in text or "]" in text:
+        return None
+    for stmt in text.split(";")[:-1]:
+        depth = 0
+        for c in stmt:
+            if c == "(":
+                depth += 1
+            elif c == ")":
+                depth -= 1
+                if depth < 0:
+                    return stmt
+        if depth != 0:
+            return stmt
+    return None
+
+
 def run_text(ctx, text, schema, kwargs, matrix_type):
     dims = declared_dims(text, schema)
     if dims is not None:
         ctx.cls("%s:dims_declared" % schema)
+    bad_stmt = unbalanced_newick_statement(text) if schema == "newick" else None
+    if bad_stmt is not None:
+        ctx.cls("newick:has_unbalanced_statement")
     for route in routes_for(schema):
         outcome, _ = run_route(ctx, route, text, schema, kwargs, matrix_type, dims)
         ctx.cls("%s:%s" % (schema, outcome))
+        if bad_stmt is not None and outcome in ("returns", "no_data"):
+            ctx.cls("newick:unbalanced_accepted")
+            ctx.fail("bad_data_reported", "C20:newick:unbalanced_accepted",
+                     "route %s accepted (%s) a text whose statement %r has unbalanced parentheses: %r" % (
+                         route, outcome, bad_stmt[:80], text[:300]))
 
 
 # ---------------------------------------------------------------------------
@@ -622,7 +653,11 @@ def soup_cases():
             lambda c: dict(c, matrix_type=c["kwargs"].get("data_type", "dna" if c["schema"] == "nexus" else None)))
     stmt = st.fixed_dictionaries({"text": docs.nexus_statement_soups(), "schema": st.just("nexus"),
                                   "kwargs": st.just({}), "matrix_type": st.sampled_from(["dna", "standard"])})
-    return st.one_of(one("newick"), one("nexus"), one("nexus"), stmt, stmt, stmt, one("phylip"), one("fasta"))
+    plain = st.fixed_dictionaries({"text": docs.plain_newick_soups(), "schema": st.just("newick"),
+                                   "kwargs": st.just({}), "matrix_type": st.none()})
+    plain2 = st.fixed_dictionaries({"text": docs.plain_newick_mutants(), "schema": st.just("newick"),
+                                    "kwargs": st.just({}), "matrix_type": st.none()})
+    return st.one_of(one("newick"), plain, plain2, plain2, one("nexus"), one("nexus"), stmt, stmt, stmt, one("phylip"), one("fasta"))
 
 
 DEEP_DEPTHS = (10, 100, 400, 900, 1500, 2500, 5000, 20000)
